@@ -33,6 +33,17 @@ def base_pickles():
         ("frozen", asm.assemble(["MARK", ("BININT1", 1), ("SHORT_BINUNICODE", "a"), "FROZENSET", "MARK",
                                  ("SHORT_BINUNICODE", "k"), ("BININT1", 1), "DICT", "TUPLE2", "STOP"])),
         ("broken", WITNESS),
+        # several names from ONE module, for a non-standard, a standard and a denylisted module: anything that
+        # groups findings or imports per module iterates a collection of names
+        ("multi_import_nonstd", asm.assemble(
+            ["MARK"] + [("GLOBAL", (asm.SINK, n)) for n in ("Pool", "Head", "Conv", "Norm", "record", "Dense")]
+            + ["TUPLE", "STOP"])),
+        ("multi_import_mixed", asm.assemble(
+            [("PROTO", 2), "MARK"]
+            + [("GLOBAL", ("collections", n)) for n in ("OrderedDict", "Counter", "deque", "ChainMap")]
+            + [("GLOBAL", ("os", n)) for n in ("getcwd", "getpid", "sep", "linesep")]
+            + [("GLOBAL", ("mypkg.layers", n)) for n in ("Pool", "Head", "Conv", "Norm")]
+            + ["TUPLE", "STOP"])),
     ]
 
 
